@@ -8,6 +8,8 @@ import (
 	"sort"
 	"strings"
 	"time"
+	"unicode"
+	"unicode/utf8"
 
 	"github.com/iotaledger/hive.go/serializer/v2"
 	"github.com/iotaledger/hive.go/serializer/v2/serix"
@@ -618,7 +620,10 @@ func fieldKey(name string) string {
 		name = strings.ReplaceAll(name, kw, string(kw[0])+strings.ToLower(kw)[1:])
 	}
 
-	return strings.ToLower(name[:1]) + name[1:]
+	// the documented key starts with the lower-case first LETTER of the field name
+	r, size := utf8.DecodeRuneInString(name)
+
+	return string(unicode.ToLower(r)) + name[size:]
 }
 
 func (c *Case) nCircle() *Node {
@@ -943,6 +948,10 @@ func (c *Case) genStruct(t *rapid.T, depth int, label string) *Node {
 	for i := 0; i < nf; i++ {
 		fl := fmt.Sprintf("%s.f%d", label, i)
 		goName := fmt.Sprintf("F%d_%d", id, i)
+		if rapid.IntRange(0, 7).Draw(t, fl+".nonascii") == 0 {
+			// a field name that starts with a letter outside ASCII (the default JSON key is derived from the name)
+			goName = fmt.Sprintf("%sF%d_%d", rapid.SampledFrom([]string{"Ä", "Δ", "Ž"}).Draw(t, fl+".letter"), id, i)
+		}
 		f := &Field{GoName: goName, Index: len(sfs)}
 		var tagParts []string
 		key := ""
@@ -1170,7 +1179,7 @@ func (c *Case) genStruct(t *rapid.T, depth int, label string) *Node {
 	// type - and with it their registered object code)
 	unique := false
 	for _, f := range n.Fields {
-		if strings.HasPrefix(f.GoName, fmt.Sprintf("F%d_", id)) {
+		if strings.Contains(f.GoName, fmt.Sprintf("F%d_", id)) {
 			unique = true
 		}
 	}
